@@ -19,6 +19,13 @@ BREAKS = [
     ('dict_mul: coefficient of the other operand dropped', 'miasmx/core/parse_ad.py', '                ret[k] = b[x86_afs.imm]*a[k]', '                ret[k] = b[x86_afs.imm]+a[k]', 'checks.C19smt', 'dict_mul['),
     ('eval_op_mullo: product replaced by sum', 'miasmx/expression/expression_eval_abstract.py', '        ret_value =  (a*b) & mymaxuint[op_size]', '        ret_value =  (a+b) & mymaxuint[op_size]', 'checks.C06smt', 'eval_op_mullo['),
     ('eval_op_minus: operands swapped', 'miasmx/expression/expression_eval_abstract.py', '            ret_value = args[0] - args[1]', '            ret_value = args[1] - args[0]', 'checks.C06smt', 'eval_op_minus['),
+    ('_div_operands: unsigned quotient bound off by one', 'miasmx/expression/expression_eval_abstract.py', '            if q > mask:', '            if q >= mask:', 'checks.C06smt', 'eval_op_div['),
+    ('_div_operands: signed quotient sign from the dividend only', 'miasmx/expression/expression_eval_abstract.py', '            if (big < 0) != (c < 0):\n                q = -q', '            if big < 0:\n                q = -q', 'checks.C06smt', 'eval_op_idiv['),
+    ('eval_op_imul08: sign bit of al subtracted with the wrong weight', 'miasmx/expression/expression_eval_abstract.py', '        if a >> 7: a -= 0x100', '        if a >> 7: a -= 0x80', 'checks.C06smt', 'eval_op_imul08['),
+    ('eval_op_imulhi: second operand not sign-converted', 'miasmx/expression/expression_eval_abstract.py', '        if b >> (op_size-1): b -= 1 << op_size\n        return ((a*b) >> op_size)', '        return ((a*b) >> op_size)', 'checks.C06smt', 'eval_op_imulhi['),
+    ('eval_op_rshift: count masked to 5 bits', 'miasmx/expression/expression_eval_abstract.py', '        ret_value = ((args[0]&mymaxuint[op_size])>>r)\n        return ret_value', '        ret_value = ((args[0]&mymaxuint[op_size])>>(r&0x1F))\n        return ret_value', 'checks.C06smt', 'eval_op_rshift['),
+    ('eval_op_lshift: operand not reduced, count masked', 'miasmx/expression/expression_eval_abstract.py', '        r = args[1]#&0x1F\n        if int(r) >= op_size:', '        r = args[1]&0x1F\n        if int(r) >= op_size:', 'checks.C06smt', 'eval_op_lshift['),
+    ('eval_op_arshift: sign bit never taken', 'miasmx/expression/expression_eval_abstract.py', '        if v >> (op_size-1):\n            v -= 1 << op_size\n        ret_value = v >> int(r)', '        if v >> op_size:\n            v -= 1 << op_size\n        ret_value = v >> int(r)', 'checks.C06smt', 'eval_op_arshift['),
     ('eval_op_inf: <= instead of <', 'miasmx/expression/expression_eval_abstract.py', '        ret_value =  [0, 1][int(args[0] < args[1])]', '        ret_value =  [0, 1][int(args[0] <= args[1])]', 'checks.C06smt', 'eval_op_inf['),
     ('ExprMem.__eq__ ignores the segment', 'miasmx/expression/expression.py', 'return self.arg == a.arg and self.size == a.size and self.segm == a.segm', 'return self.arg == a.arg and self.size == a.size', 'checks.C15smt', 'ind:ExprMem.__eq__['),
     ('ExprMem.visit forgets the segment child', 'miasmx/expression/expression.py', '            segm = self.segm.visit(cb)\n', '            segm = self.segm\n', 'checks.C15smt', 'ind:ExprMem.visit['),
@@ -52,6 +59,7 @@ class R(object):
     def bulk(self, *a, **k): pass
     def write_replay(self, *a, **k): return ''
     def trust(self, *a): pass
+    def assume(self, *a): pass
 r = R()
 mod.ob_smt(r)
 if hasattr(mod, 'ob_ad'): mod.ob_ad(r)
